@@ -198,7 +198,9 @@ func vQuiesce() {
 	}
 }
 
-func vLive() (int, int) { return 0, 0 }
+// vLive: with the sync shim the controller knows the library-started threads that are still alive
+// (it cannot tell runnable from blocked); without it nothing is known.
+func vLive() (int, int) { return ctl.Live(), 0 }
 
 // The logical clock of the engine corresponds natively to the virtual clock of the
 // time shim (only effective when the library was compiled against the shim).
